@@ -49,6 +49,9 @@ class K2(Config):
     v: Constant[int] = 4
 
     def __post_init__(self):
+        if FAIL_POST_INIT:
+            FAIL_POST_INIT.pop()
+            raise RuntimeError("post-initialisation fails as planned")
         CALLS.append(("post_init", id(self)))
 
 
@@ -127,6 +130,9 @@ class G(Config):
         CALLS.append(("post_init", id(self)))
 
 
+FAIL_POST_INIT = []  # a driver puts a token here to make the next K2.__post_init__ raise once (fault injection)
+
+
 class LW(LightweightTask):
     k: Param[int]
     c: Param[Optional[Config]] = None
@@ -135,7 +141,7 @@ class LW(LightweightTask):
         CALLS.append(("post_init", id(self)))
 
     def execute(self):
-        CALLS.append(("execute", id(self)))
+        CALLS.append(("execute", id(self), self.k))
         log = os.environ.get("XV_CALLLOG")
         if log:
             with open(log, "a") as fp:
@@ -156,7 +162,7 @@ class T(Task):
         return dep(K2(a=self.n))
 
     def execute(self):
-        CALLS.append(("execute", id(self)))
+        CALLS.append(("execute", id(self), None))
         log = os.environ.get("XV_CALLLOG")
         if log:
             with open(log, "a") as fp:
@@ -173,7 +179,7 @@ class T0(Task):
         CALLS.append(("post_init", id(self)))
 
     def execute(self):
-        CALLS.append(("execute", id(self)))
+        CALLS.append(("execute", id(self), None))
 
 
 class T1(Task):
@@ -189,7 +195,7 @@ class T1(Task):
         return dep(self.x)
 
     def execute(self):
-        CALLS.append(("execute", id(self)))
+        CALLS.append(("execute", id(self), None))
 
 
 def abstract_instance(root):
